@@ -87,7 +87,9 @@ var routePool = []string{"A", "B", "M", "1", "é", "Q", "R 1"}
 var stopPool = []string{"S1", "S2", "M11N", "A27S", "é1", "", "L03", "x"}
 
 // StartDates used by generated descriptors (includes DST switch days of several zones).
-var StartDates = []string{"20240115", "20240310", "20241103", "20230312", "20230326", "20181104", "19991231", "20240229", "20380119", "19700101", "20220911", "20241006"}
+var StartDates = []string{"20240115", "20240310", "20241103", "20230312", "20230326", "20181104", "19991231", "20240229", "20380119", "19700101", "20220911", "20241006",
+	// rare values: first and last representable civil dates, century leap day, the day before the epoch
+	"00010101", "00010102", "99991231", "20000229", "21000228", "19691231", "19000301", "16000229"}
 
 func startTime(r *core.Rand) string {
 	h := r.Intn(28)
@@ -179,6 +181,9 @@ func Timestamp(r *core.Rand) uint64 {
 		return 253402300799 // 9999-12-31
 	case 7:
 		return 1 << 40
+	case 8:
+		// beyond int64: the instant wraps, but uint64(result.Unix()) must still be the wire value
+		return core.Pick(r, []uint64{math.MaxInt64, math.MaxInt64 + 1, math.MaxUint64, math.MaxUint64 - 86400})
 	default:
 		return 1500000000 + uint64(r.Intn(400000000))
 	}
@@ -360,6 +365,10 @@ type Opts struct {
 	// PassThroughSelectorsOnly restricts alert selectors to ones that are kept 1:1
 	// (C02 leaves normalisation to C12).
 	PassThroughSelectorsOnly bool
+	// Exact sizes (0 = draw up to the Max* value). Used by the size-threshold sweeps.
+	ExactTrips, ExactVehs, ExactIDLess, ExactAlerts, ExactSelectors, ExactStopTimeUpdates int
+	// TripUpdateChancePct is the percentage of trips that get a trip update of their own (0 = 75).
+	TripUpdateChancePct int
 }
 
 // GenFeed draws a conflict-free message: one descriptor per trip/vehicle across
@@ -377,6 +386,9 @@ func GenFeed(r *core.Rand, o Opts) *Feed {
 		f.Msg.Header.Incrementality = &inc
 	}
 	nT := r.Intn(o.MaxTrips + 1)
+	if o.ExactTrips > 0 {
+		nT = o.ExactTrips
+	}
 	seen := map[string]bool{}
 	for i := 0; i < nT; i++ {
 		d := GenTripDesc(r, i)
@@ -426,9 +438,15 @@ func GenFeed(r *core.Rand, o Opts) *Feed {
 		f.Trips = append(f.Trips, TripSpec{Desc: d, Key: k, Identifiable: Identifiable(d)})
 	}
 	nV := r.Intn(o.MaxVehs + 1)
+	if o.ExactVehs > 0 {
+		nV = o.ExactVehs
+	}
 	vseen := map[string]bool{}
 	for i := 0; i < nV; i++ {
 		d := GenVehDesc(r, i)
+		if o.ExactVehs > 0 && i >= 8 {
+			d = &gtfsrt.VehicleDescriptor{Id: S(fmt.Sprintf("veh-%d", i))}
+		}
 		k := vehKey(d)
 		if vseen[k] {
 			continue
@@ -463,11 +481,18 @@ func GenFeed(r *core.Rand, o Opts) *Feed {
 	expressed := map[int]bool{} // trip index -> association expressed by some entity
 	for ti := range f.Trips {
 		v, assoc := f.Assoc[ti]
-		if !(r.Chance(3, 4) || assoc) {
+		pct := o.TripUpdateChancePct
+		if pct == 0 {
+			pct = 75
+		}
+		if !(r.Intn(100) < pct || assoc) {
 			continue
 		}
 		tu := &gtfsrt.TripUpdate{Trip: clone(f.Trips[ti].Desc)}
 		ns := r.Intn(5)
+		if o.ExactStopTimeUpdates > 0 && ti == 0 {
+			ns = o.ExactStopTimeUpdates
+		}
 		for k := 0; k < ns; k++ {
 			tu.StopTimeUpdate = append(tu.StopTimeUpdate, GenStopTimeUpdate(r, k))
 		}
@@ -504,6 +529,9 @@ func GenFeed(r *core.Rand, o Opts) *Feed {
 	if o.MaxIDLess > 0 {
 		nI = r.Intn(o.MaxIDLess + 1)
 	}
+	if o.ExactIDLess > 0 {
+		nI = o.ExactIDLess
+	}
 	for k := 0; k < nI; k++ {
 		vp := &gtfsrt.VehiclePosition{}
 		if r.Chance(1, 3) {
@@ -527,13 +555,23 @@ func GenFeed(r *core.Rand, o Opts) *Feed {
 	}
 	// alerts
 	nA := r.Intn(o.MaxAlerts + 1)
+	if o.ExactAlerts > 0 {
+		nA = o.ExactAlerts
+	}
 	for k := 0; k < nA; k++ {
 		a := &gtfsrt.Alert{}
 		GenAlertBody(r, a)
 		ns := r.Intn(4)
+		if o.ExactSelectors > 0 && k == 0 {
+			ns = o.ExactSelectors
+		}
 		for j := 0; j < ns; j++ {
 			sel := &gtfsrt.EntitySelector{}
-			switch r.Intn(6) {
+			kind := r.Intn(6)
+			if o.ExactSelectors > 0 && k == 0 && r.Chance(5, 6) {
+				kind = 5 // mostly trip mentions: many trips known only through this alert
+			}
+			switch kind {
 			case 0:
 				sel.AgencyId = S(core.Pick(r, []string{"MTA", "", "é"}))
 			case 1:
